@@ -67,7 +67,10 @@ Checks(e) ==
                <<\A a, b \in Acked : (ackAt[a][1] = ackAt[b][1] /\ a \in DOMAIN retSeq /\ b \in DOMAIN callSeq /\ retSeq[a] < callSeq[b]) => ackAt[a][2] < ackAt[b][2],
                  "idempotent producing: acknowledged records of one partition are not in produce order">>,
                <<\A id \in DOMAIN Promised : (Promised[id] # "" /\ ~Abandoned(Promised[id])) => At(id) = {}, "idempotent producing: a record whose promise reported an error is in the log">> >>
-    [] e.ev = "final_flush" -> << <<e.err = "" /\ e.buffered = 0, "records are still buffered three (virtual) minutes after the last fault with healthy brokers: their promises never run and Flush does not return">> >>
+    [] e.ev = "final_flush" -> << <<(e.err = "" /\ e.buffered = 0) \/ (Admitted \subseteq DOMAIN Promised),
+                                    "records are still buffered three (virtual) minutes after the last fault with healthy brokers: their promises never run and Flush does not return">>,
+                                  <<(e.err = "" /\ e.buffered = 0) \/ ~(Admitted \subseteq DOMAIN Promised),
+                                    "every promise has run but BufferedProduceRecords is not zero and Flush stays blocked although nothing is buffered">> >>
     [] e.ev \in {"close_stuck", "driver_failed"} -> << <<FALSE, "Close did not return / driver died">> >>
     [] OTHER -> <<>>
 Ok(e) == \A i \in DOMAIN Checks(e) : Checks(e)[i][1]
